@@ -23,7 +23,7 @@ From Rumqtt Require Import Router.WindowFrame Router.Window Router.WindowStep Ro
   Router.RetainedBase Router.RetainedReplay Router.Shared Router.SharedRun Router.SharedRunInv Router.SharedRunStep
   Router.SharedRunStep3 Router.SharedRunThm
   Router.Wake Router.WakeFrame Router.WakeConsume Router.WakePark Router.WakeThm Router.WakeCor Router.WakeExamples
-  Router.GroupWake Router.GroupWakeStep
+  Router.GroupWake Router.GroupWakeStep Router.GroupWakeIdx
   Router.GroupWakeMem Router.GroupWakeMem2 Router.GroupWakeMem3 Router.GroupWakeMem4 Router.GroupWakeMem5 Router.GroupWakeMem6.
 From Rumqtt Require Import Router.Model Router.RunDefs.
 From Coq Require Import List Arith ZifyBool ZifyN ZifyNat.
@@ -220,7 +220,7 @@ Theorem turn_holder_runnable cfg st0 ops st :
       ((tr_status t = Ready /\ In id (r_ready st)) \/
        (tr_status t = Paused InflightFull /\ o_inflight o <> []) \/
        (tr_status t = Paused Busy /\
-        (In NUnschedule (out_of st (o_link o)) \/ In (o_link o) (owed_run st0 [] ops)))).
+        (In NUnschedule (WindowFrame.out_of st (o_link o)) \/ In (o_link o) (owed_run st0 [] ops)))).
 Proof.
   intros Hcfg Hm Hi Hwf Hr HB Hnr name g d c Hg Hd Hne Hcur.
   pose proof (rinv_reachable _ _ _ _ Hcfg Hi Hwf Hr) as [HI Hn].
@@ -237,4 +237,28 @@ Proof.
   - exfalso. apply Hne.
     pose proof (parked_glog _ _ _ _ _ _ HC HP Hd' Hw Hgr) as Hd2. rewrite Hd in Hd2. inversion Hd2; subst d'.
     eapply group_park_inv_reachable; eauto.
+Qed.
+
+(** ... and there always is a turn holder ([IdxInv]): the backlog of a registered group can be
+    served without another publish *)
+Theorem backlog_is_served cfg st0 ops st :
+  cfg_ok cfg -> 1 <= cf_max_outgoing cfg < B62 -> init cfg = Ok st0 -> ops_wf ops ->
+  run st0 ops = Ok st -> Bounded st -> no_rewind_b st0 ops = true ->
+  forall name g d,
+    al_get str_eqb name (r_groups st) = Some g -> glog (r_datalog st) name = Some d ->
+    pos_of (d_log d) (g_cursor g) <> end_of (d_log d) ->
+    exists c id t o rq,
+      current_client g = Some c /\ In c (g_clients g) /\
+      cli st id = Some c /\ slab_get (r_trackers st) id = Some t /\ slab_get (r_obufs st) id = Some o /\
+      In rq (tr_reqs t) /\ dr_filter rq = gpath name /\ dr_group rq = Some name /\
+      ((tr_status t = Ready /\ In id (r_ready st)) \/
+       (tr_status t = Paused InflightFull /\ o_inflight o <> []) \/
+       (tr_status t = Paused Busy /\
+        (In NUnschedule (WindowFrame.out_of st (o_link o)) \/ In (o_link o) (owed_run st0 [] ops)))).
+Proof.
+  intros Hcfg Hm Hi Hwf Hr HB Hnr name g d Hg Hd Hne.
+  assert (HR : reachable cfg st) by (exists st0, ops; auto).
+  destruct (turn_holder_exists _ _ _ _ HR Hg) as (c & Hc & Hin).
+  destruct (turn_holder_runnable _ _ _ _ Hcfg Hm Hi Hwf Hr HB Hnr _ _ _ _ Hg Hd Hne Hc) as (id & t & o & rq & H).
+  exists c, id, t, o, rq. split; [exact Hc | split; [exact Hin | exact H]].
 Qed.
